@@ -10,7 +10,7 @@ EXTENDS LayoutGC
 CC(root, tag, skip, refs, key) == [root |-> root, tag |-> tag, skip |-> skip, refs |-> refs, key |-> key]
 Base == [cp |-> [c \in Copies |-> CC("M3", "t1", {}, FALSE, "p")], gc |-> TRUE, pre |-> {}, plant |-> {},
          ckeys |-> {"p"}, okey |-> "p", faults |-> TRUE, dels |-> {}, tdels |-> {"t1"},
-         pblobs |-> {}, badput |-> FALSE, pmans |-> {}, retags |-> {}]
+         pblobs |-> {}, badput |-> FALSE, pmans |-> {}, retags |-> {}, fresh |-> FALSE]
 Two(a, b) == [c \in Copies |-> IF c = "c1" THEN a ELSE b]
 WithGC(S) == S \cup {[x EXCEPT !.gc = FALSE] : x \in S}
 
@@ -55,6 +55,25 @@ AliasConfs == {
                !.ckeys = {"p/"}, !.okey = "p/", !.pre = {<<"M3", "t1">>}, !.tdels = {"t1", "t2"}],
   [Base EXCEPT !.cp = Two(CC("M1", "t1", {}, FALSE, "p/"), CC("S1", "t2", {}, FALSE, "p")),
                !.ckeys = {"p", "p/"}, !.tdels = {"t1", "t2"}, !.faults = FALSE] }
+\* a layout that does not exist when the history starts and / or is reached through a symbolic
+\* link (one spelling per history: everything through the link, or everything through the real path)
+LinkConfs == {
+  [Base EXCEPT !.cp = Two(CC("M3", "t1", {}, FALSE, k), CC("M4", "t2", {}, FALSE, k)),
+               !.ckeys = {k}, !.okey = k, !.fresh = fr, !.tdels = {"t1", "t2"}]
+    : k \in {"p", "l"}, fr \in BOOLEAN } \cup {
+  [Base EXCEPT !.cp = Two(CC("M3", "t1", {}, FALSE, "l"), CC("M3", "t1", {}, FALSE, "l")),
+               !.ckeys = {"l"}, !.okey = "l", !.fresh = TRUE],
+  [Base EXCEPT !.cp = Two(CC("M3", "t1", {}, FALSE, "p/"), CC("M4", "t1", {}, FALSE, "p")),
+               !.ckeys = {"p", "p/"}, !.okey = "p/", !.fresh = TRUE] }
+\* the same with larger graphs, for the real code only
+LinkConfsGen == LinkConfs \cup {
+  [Base EXCEPT !.cp = Two(CC("N1", "t1", {}, FALSE, k), CC("S1", "t2", {}, FALSE, k)),
+               !.ckeys = {k}, !.okey = k, !.fresh = TRUE, !.tdels = {"t1", "t2"}, !.faults = FALSE]
+    : k \in {"p", "l"} } \cup {
+  [Base EXCEPT !.cp = Two(CC("M1", "t1", {}, TRUE, "l"), CC("I1", "t2", {"M1"}, FALSE, "l")),
+               !.ckeys = {"l"}, !.okey = "l", !.fresh = TRUE, !.pmans = {<<"A1", "art">>}, !.pblobs = {"L3"},
+               !.badput = TRUE, !.dels = {"A1"}, !.tdels = {"t1", "t2", "art"}, !.faults = FALSE] }
+
 \* more histories for the real code only (too large for the exhaustive check): referrers of a
 \* manifest nested two levels deep, copies that share children, deletes of manifests that other
 \* manifests still list, a schema1 image that is already there
